@@ -73,6 +73,87 @@ class W:
             self.expr_num[id(e)] = k
         return self.exprs[k]
 
+    def _hold_only_the_blocks(self):
+        """LIFETIME, from below: the harness keeps only the code and data blocks (and whatever is not connected to any block's
+        tree), forgets every other object of those trees -- intervals, sections, modules, IRs, their symbols and proxies, and its own
+        expression objects --, collects garbage, and finds everything again by walking up from the blocks through the parent
+        attributes and down again through the collections: a child keeps its ancestors alive, and they are the same objects."""
+        import gc
+        g = self.g
+        blocks = [n for n, k in self.kind.items() if k in ("CodeBlock", "DataBlock") and n in self.obj]
+
+        def up(o):
+            chain = [o]
+            while True:
+                k = "IR" if isinstance(chain[-1], g.IR) else next((kk for kk, cls in (("Module", g.Module), ("Section", g.Section), ("ByteInterval", g.ByteInterval),
+                                                                                          ("Symbol", g.Symbol), ("ProxyBlock", g.ProxyBlock)) if isinstance(chain[-1], cls)), "CodeBlock")
+                if k == "IR":
+                    return chain
+                p = getattr(chain[-1], PARENT_ATTR[k])
+                if p is None:
+                    return chain
+                chain.append(p)
+
+        def down(o, out):
+            if id(o) in out:
+                return
+            out[id(o)] = o
+            if isinstance(o, g.IR):
+                kids = list(o.modules)
+            elif isinstance(o, g.Module):
+                kids = list(o.sections) + list(o.symbols) + list(o.proxies)
+            elif isinstance(o, g.Section):
+                kids = list(o.byte_intervals)
+            elif isinstance(o, g.ByteInterval):
+                kids = list(o.blocks)
+            else:
+                kids = []
+            for c in kids:
+                down(c, out)
+
+        def trees():
+            out = {}
+            for n in blocks:
+                down(up(self.obj[n])[-1], out)
+            return out
+        inside = trees()
+        forget = [n for n, o in self.obj.items() if id(o) in inside and self.kind[n] not in ("CodeBlock", "DataBlock")]
+        if not forget:
+            return [0]
+        old = {n: (id(self.obj[n]), type(self.obj[n]), self.obj[n].uuid) for n in forget}
+        stored = {(n, k): self.expr_num[id(e)] for n, o in self.obj.items() if self.kind[n] == "ByteInterval"
+                  for k, e in o.symbolic_expressions.items() if id(e) in self.expr_num}
+        for n in forget:
+            del self.num[id(self.obj[n])]
+            del self.obj[n]
+        self.exprs, self.expr_num = {}, {}
+        inside = o = None
+        gc.collect()
+        found = trees()
+        lost = []
+        for n in forget:
+            oid, cls, uu = old[n]
+            o = found.get(oid)
+            if o is None or type(o) is not cls or o.uuid != uu:
+                lost.append(n)
+            else:
+                self.obj[n] = o
+                self.num[oid] = n
+        for (n, k), num in stored.items():
+            if n in self.obj and k in self.obj[n].symbolic_expressions:
+                self.expr_num[id(self.obj[n].symbolic_expressions[k])] = num
+        self.forms = getattr(self, "forms", {})
+        self.forms["only-the-blocks-held"] = self.forms.get("only-the-blocks-held", 0) + 1
+        if lost:
+            # (put SOMETHING back under the lost numbers, so that the rest of the history can be executed and reported)
+            for n in lost:
+                self.obj[n] = getattr(g, self.kind[n])() if self.kind[n] in ("IR", "ProxyBlock") else (
+                    g.Symbol("lost") if self.kind[n] == "Symbol" else getattr(g, self.kind[n])(name="lost") if self.kind[n] in ("Module", "Section") else g.ByteInterval())
+                self.num[id(self.obj[n])] = n
+            raise AssertionError("with only the blocks held by the caller, garbage collection lost %d of their ancestors / siblings (%s): a child does not keep them alive"
+                                 % (len(lost), ", ".join(sorted({self.kind[n] for n in lost}))))
+        return [0]
+
     def parent_of(self, o, kind):
         return getattr(o, PARENT_ATTR[kind])
 
@@ -289,6 +370,8 @@ class W:
                     self.num[was] = n
                 self.forms["irs-forgotten-and-found-again"] = self.forms.get("irs-forgotten-and-found-again", 0) + 1
                 return [0]
+            if it[1] == 8:
+                return self._hold_only_the_blocks()
             how = "deepcopy" if it[1] == 0 else "pickle"
             # (expression objects the harness numbered without keeping them in `exprs` -- equal-but-distinct clones stored by a check
             # -- are found through the intervals that hold them)
